@@ -61,7 +61,9 @@ def task_sets(which: int):
             A.Shape(kind='nested', n=3), A.Shape(kind='large', n=200), A.Shape(kind='enum', n=0), A.Shape(kind='none', n=0)]
     if which == 1:
         return [A.Foo(p=v, q=w) for v in (0, '', 'a/b') for w in (None, 2 ** 63, ' ')] + [
-            A.Foo(p={'a': {'b': [A.Leaf(v=A.Color.RED)]}}), A.Shape(kind='scalar', n=7), A.Shape(kind='large', n=1200)]
+            A.Foo(p={'a': {'b': [A.Leaf(v=A.Color.RED)]}}), A.Shape(kind='scalar', n=7), A.Shape(kind='large', n=1200)] + [
+            # results that change between executions: a value, then None / falsy values, then a value again
+            A.Flip(kind=k, p=1) for k in ('none-second', 'none-first', 'falsy')] + [A.JFlip(kind='none-second', p=2)]
     ts = trees(1, TINY, width=2, task_types=('Leaf', 'BLeaf'), inner_leaves=TINY)
     return [A.Foo(p=build(t, types=TYPES)) for t in ts[::2]] + [A.JFoo(p=build(t, types=TYPES)) for t in ts[1::4]]
 
@@ -174,7 +176,11 @@ def inproc_case(args):
                     continue
                 WORLD.reset(epoch=2)
                 FakeDatetime.script = [datetime(2000, 1, 1), datetime(2000, 1, 1, 0, 0, 9)] * (ndeps + 1)
-                r2 = lab2.run_tasks([t2], disable_progress=True, disable_top=True)
+                if cacheable and n % 2 == 0:
+                    # every other item is fetched through the single-task entry point
+                    r2 = {t2: lab2.run_task(t2, disable_progress=True, disable_top=True)}
+                else:
+                    r2 = lab2.run_tasks([t2], disable_progress=True, disable_top=True)
                 started = [ev for ev in WORLD.log if ev[0] == 'start']
                 if not cacheable:
                     if not started:
